@@ -213,6 +213,13 @@ def cases(tier, seed):
             out.append({"input": {"kind": "probvec", "probs": list(vec), "explicit_last": False}})
             if k >= 2:
                 out.append({"input": {"kind": "probvec", "probs": list(vec), "explicit_last": True}})
+    # decimal spellings of probability vectors, among them vectors that add up to exactly 1 only in exact arithmetic
+    dvals = ["0.33", "0.56", "0.11", "0.1", "0.2", "0.7", "0.12"]
+    for vec in itertools.product(dvals, repeat=3):
+        if sum(F(v) for v in vec) <= 1 and (sum(F(v) for v in vec) == 1 or vec[0] <= vec[1] <= vec[2]):
+            out.append({"input": {"kind": "probvec", "probs": list(vec), "explicit_last": sum(F(v) for v in vec) == 1}})
+    for vec in itertools.product(dvals, repeat=2):
+        out.append({"input": {"kind": "probvec", "probs": list(vec), "explicit_last": False}})
     return out
 
 
@@ -371,7 +378,23 @@ def run_probvec(inp):
         res["status"] = "violation"
     if not invalid and not accepted:
         stats["refusals"][err] = 1
-        # valid vector refused: recorded (the property only demands rejection of invalid ones), and compared below when accepted
+        # valid vector refused: recorded (the property only demands rejection of invalid ones), and compared below when accepted;
+        # but a DECIMAL vector must not be refused when the same vector spelled with fractions is accepted
+        if any("." in p for p in inp["probs"]):
+            ftext = text
+            for p_ in sorted(set(inp["probs"]), key=len, reverse=True):
+                ftext = ftext.replace("{%s}" % p_, "{%s}" % F(p_))
+            try:
+                with cpu_limit(30):
+                    polar.reset_settings()
+                    polar.normalize(polar.parse(ftext))
+                res["violations"].append({"sub": "decimal-vector-rejected", "detail": {"text": text, "refused_with": err,
+                                                                                     "accepted_spelling": ftext}})
+                res["status"] = "violation"
+            except CpuTimeout:
+                pass
+            except Exception:
+                pass
     if not invalid and accepted and (not inp["explicit_last"] or sum(probs) == 1):
         # explicit vectors summing to less than 1 have no defined meaning; they are not compared
         r = analyse_program_goals(text, ["x"], 3)
